@@ -169,3 +169,12 @@ pub fn quick_scale(property: &str) -> u32 {
         _ => 1,
     }
 }
+
+/// Divisor applied to the thorough-tier case counts of generated clauses, so that a thorough check is roughly half an hour of
+/// fixed work on 16 cores (the exact-arithmetic legs at N up to 300 cost ~10 ms per case).
+pub fn thorough_div(property: &str) -> u32 {
+    match property {
+        "C02" => 4,
+        _ => 1,
+    }
+}
